@@ -166,7 +166,13 @@ def extract():
     res["passiveHumanGenders"] = max(_str_lists_compared_with(pho) + [[]], key=len)
     # --- PhraseEn.py / DependentEn.py
     t, p = _src("PhraseEn.py")
-    res["prepositionList"] = {k: sorted(v) for k, v in _return_lit(t, "PhraseEn", "preposition_list", p).items()}
+    # `preposition_list` lives in PhraseEn, or (once shared with the dependency notation) in the NonTerminalEn mixin
+    tn, pn = _src("NonTerminalEn.py")
+    if _has_func(t, "PhraseEn", "preposition_list"):
+        pl = _return_lit(t, "PhraseEn", "preposition_list", p)
+    else:
+        pl = _return_lit(tn, "NonTerminalEn", "preposition_list", pn)
+    res["prepositionList"] = {k: sorted(v) for k, v in pl.items()}
     tq = _find_func(t, "PhraseEn", "tag_question", p)
     res["tagAuxPhrase"] = _str_lists_compared_with(tq)[0]
     mo = _find_func(t, "PhraseEn", "move_object", p)
@@ -177,7 +183,8 @@ def extract():
     a0 = pops[0].args[0]
     res["moveObjectPopsIndex0"] = isinstance(a0, ast.Constant) and a0.value == 0
     t2, p2 = _src("DependentEn.py")
-    res["depHasPrepositionList"] = _has_func(t2, "DependentEn", "preposition_list")
+    res["depHasPrepositionList"] = _has_func(t2, "DependentEn", "preposition_list") or \
+        _has_func(tn, "NonTerminalEn", "preposition_list")
     tq2 = _find_func(t2, "DependentEn", "tag_question", p2)
     res["tagAuxDep"] = _str_lists_compared_with(tq2)[0]
     mo2 = _find_func(t2, "DependentEn", "move_object", p2)
